@@ -11,6 +11,7 @@ import (
 func init() {
 	register(&PropDef{ID: "C07", Title: "Cache view reflects its own pending operations (read-your-writes)", Rules: rulesC07,
 		Explanation: "Decided (structural necessary conditions, fscache.Cache): R1 the source of a read is the remote only on the edge where the buffer does not have the path, and the three boolean queries consult the buffer and the remote with the same-named query; R2 ReadDir issues both listings, fails only if both fail, keeps the remote entries and appends a buffer entry unless a remote entry with the same Name() is found by a scan that covers the whole remote listing from its first element; R3 Remove/RemoveAll reach, on every path, the buffer-presence test that removes the buffered node and the journal recorder (a second removal after a re-creation still clears the buffer); R4 every read-type method that can answer from the remote depends on the removal journals — necessary by an information argument: after Remove(p) of a remote-only p neither buffer nor remote changed, only the journal distinguishes 'removed' from 'untouched'; R5 the child views handed out by the cache (fshelper.SubFS, also nested) keep a separator-terminated base, so a view's own writes are visible at the same names through the view, its parent and the cache. " +
+			"R6 the cache's buffer is a memory filespace, so its check-then-create on the directory index must be atomic (same rule as C09.L4): otherwise two writers through the cache create one directory twice and a written file cannot be read back. " +
 			"R4 is violated on today's tree by five constructs (known finding KF-2, listed in known_findings.json): removed remote files and directories stay visible until Commit. NOT decided: that answers equal 'remote + pending operations' on all interleavings; child views of the cache.",
 	})
 }
@@ -338,4 +339,13 @@ func rulesC07(c *Ctx) {
 		c.Floor("R5", ruleViewBaseSeparator(c, "R5", fiface, []*types.Named{subT}), 2)
 	}
 	_ = strings.TrimSpace
+
+	// ---- R6 the buffer is a memory filespace: its check-then-create must be atomic, or two
+	// writers through the cache create one directory twice and a written file cannot be read back
+	// (same rule as C09.L4)
+	if dirT := c.P.Named(memfsPkg, "Dir"); dirT != nil {
+		c.Floor("R6", checkThenInsert(c, NewLockEngine(c.P), "R6", c.P.PkgFuncs(memfsPkg), dirT, "index", "mu"), 1)
+	} else {
+		c.Bad("R6", "memfs.Dir", 0, "anchor not found")
+	}
 }
